@@ -118,6 +118,12 @@ returns and are dropped (`events`); the publish callback may also write non-rela
 shared facade base class are followed for the analysed subclass (`A.hook_store`: `self._assign(v)` == `owner.prop = v`,
 `A.hook_value`: `self._current()` == its return expression).  sort: when no sort compares the attribute value itself although a
 `type(key) is str` path reaches a sort, the single-attribute case is refuted (sorted through the joined str() form).
+
+Round 10: constant tests left by a helper spliced with a constant flag (`if False:`, `a if False else b`) are dead code / no
+condition (`_dead_branch`, `_cf`); hook stores may carry any value expression over self and the hook's parameters
+(`_remove_existing(task)`); `self._holds(task)` (validation + `task in self._list`) is the membership test; the children facade's
+remove may be inherited; an unconditional `_detach()` of all old children is UNDECIDED when `_detach` itself tests the parent.
+Not decided: reorder through an id->task dict (C16-r102): its defect needs a repeated id in the argument (C01's subject).
 """
 from __future__ import annotations
 
@@ -272,11 +278,32 @@ def events(A, f: Func) -> List[Ev]:
     # the property speaks about calls that RETURN: what happens on a path that can only end in a raise (a rollback in an
     # `except ...: ...; raise` handler, clean-up before an error) is the subject of C15, not an effect of an accepted call
     out = [e for e in out if e.cn is None or e.cn is cfg.exit or cfg.can_reach(e.cn, cfg.exit)]
+    out = [e for e in out if not _in_dead_code(cfg, e.cn)]     # `if False: ...` of a helper spliced with a constant flag
     return out
 
 
 # ---------------------------------------------------------------------------------------------------------------------
 # paths
+def _dead_branch(n) -> bool:
+    """branch node of a test that is a literal constant with the other truth value (`if False:` body, left behind when a shared
+    helper is spliced with a constant flag): never taken"""
+    return n is not None and n.kind == 'branch' and isinstance(n.test, ast.Constant) and bool(n.test.value) != bool(n.polarity)
+
+
+def _in_dead_code(cfg, cn) -> bool:
+    if cn is None:
+        return False
+    dom = cfg.dominators().get(cn.id, set())
+    return any(_dead_branch(cfg.nodes[i]) for i in dom)
+
+
+def _cf(e):
+    """`A if <constant> else B` is A or B"""
+    while isinstance(e, ast.IfExp) and isinstance(e.test, ast.Constant):
+        e = e.body if e.test.value else e.orelse
+    return e
+
+
 def opposite_branch(cfg, test: ast.AST, pol: bool) -> Optional[Node]:
     for n in cfg.nodes:
         if n.kind == 'branch' and n.test is test and n.polarity == (not pol):
@@ -307,6 +334,8 @@ def path_atoms(A, f: Func, cn: Node, since: Optional[Node] = None) -> List[Tuple
             continue
         if is_rejection(cfg, b.test, b.polarity):
             continue
+        if isinstance(b.test, ast.Constant):
+            continue        # `if True:` / `else` of `if False:`: no condition at all
         tn = cfg.node_containing(b.test)
         t = ex.expand(b.test, tn)
         for a, p in facts.split_conj(t, b.polarity):
@@ -399,7 +428,7 @@ def escaping_path(cfg, avoid: Set[int]) -> bool:
     while todo:
         n = todo.pop()
         for s in n.succ:
-            if s.id in seen or s.id in avoid:
+            if s.id in seen or s.id in avoid or _dead_branch(s):
                 continue
             if s is cfg.exit:
                 return True
@@ -469,11 +498,12 @@ def resolve(f: Func, e: ast.AST, at: Optional[Node]) -> Tuple[ast.AST, Optional[
     """follow plain local names to their unique plain assignment: (expression, cfg node that evaluated it, hops)"""
     fl = flow_of(f)
     hops = 0
+    e = _cf(e)
     while isinstance(e, ast.Name) and at is not None and hops < 8:
         d = fl.unique_def(e.id, at)
         if d is None or d.kind != 'assign' or d.value is None or d.node is at:
             break
-        e, at = d.value, d.node
+        e, at = _cf(d.value), d.node
         hops += 1
     return e, at, hops
 
@@ -713,6 +743,8 @@ class _GetattrFold(ast.NodeTransformer):
 
     def visit_IfExp(self, n):
         n = self.generic_visit(n)
+        if isinstance(n.test, ast.Constant):
+            return n.body if n.test.value else n.orelse
         if same(n.body, n.orelse):
             return n.body       # `(A, x) if c else (A, y)` taken apart element-wise leaves `A if c else A`
         return n
@@ -723,7 +755,8 @@ def _fold_getattr(e, a=None, f=None):
     hooks = a is not None and f is not None and bool(a.cur_cls.get(f.qual))
     if e is None or not any((isinstance(n, ast.Call) and isinstance(n.func, ast.Name) and n.func.id == 'getattr') or
                             (hooks and isinstance(n, ast.Call) and isinstance(n.func, ast.Attribute) and not n.args) or
-                            (isinstance(n, ast.IfExp) and same(n.body, n.orelse)) for n in ast.walk(e)):
+                            (isinstance(n, ast.IfExp) and (same(n.body, n.orelse) or isinstance(n.test, ast.Constant)))
+                            for n in ast.walk(e)):
         return e
     import copy
     return _GetattrFold(a, f).visit(copy.deepcopy(e))
@@ -808,19 +841,34 @@ class A:
         """hook `def M(self, v): <self-expr>.<relation property> = v` called as `self.M(X)`:  (receiver expression in terms of
         the caller's self, property, X)  or None"""
         m = self.hook_method(f, call)
-        if m is None or len(m.params) != 2 or len(call.args) != 1 or call.keywords:
+        if m is None or call.keywords or len(call.args) != len(m.params) - 1 or any(isinstance(x, ast.Starred) for x in call.args):
             return None
         body = self.hook_body(m)
         if len(body) != 1 or not isinstance(body[0], ast.Assign) or len(body[0].targets) != 1:
             return None
         tg, v = body[0].targets[0], body[0].value
-        if not (isinstance(tg, ast.Attribute) and tg.attr in REL_PROPS and isinstance(v, ast.Name) and v.id == m.params[1]):
+        if not (isinstance(tg, ast.Attribute) and tg.attr in REL_PROPS):
             return None
         if any(isinstance(n, ast.Name) and n.id not in (m.self_name,) for n in ast.walk(tg.value)):
             return None
+        bound = set()
+        for n in ast.walk(v):
+            if isinstance(n, ast.comprehension):
+                bound |= names_in(n.target)
+        if any(isinstance(n, ast.Name) and isinstance(n.ctx, ast.Load) and n.id not in m.params and n.id not in bound
+               for n in ast.walk(v)):
+            return None         # the value reads something else than self and the hook's parameters
+        if any(not isinstance(x, (ast.Name, ast.Constant)) for x in call.args) and \
+                any(sum(1 for n in ast.walk(v) if isinstance(n, ast.Name) and n.id == prm) > 1 for prm in m.params[1:]):
+            pass                # a compound argument used several times: substituted textually all the same (pure expressions)
         import copy
-        recv = _Subst({m.self_name: ast.Name(id=f.self_name, ctx=ast.Load())}).visit(copy.deepcopy(tg.value))
-        return recv, tg.attr, call.args[0]
+        sub = {m.self_name: ast.Name(id=f.self_name, ctx=ast.Load())}
+        sub.update({prm: arg for prm, arg in zip(m.params[1:], call.args) if prm not in bound})
+        recv = _Subst({m.self_name: sub[m.self_name]}).visit(copy.deepcopy(tg.value))
+        val = _Subst(sub).visit(copy.deepcopy(v))
+        ast.copy_location(val, call)
+        ast.fix_missing_locations(val)
+        return recv, tg.attr, val
 
     def hook_value(self, f, call):
         """hook `def M(self): return <expr over self>` called as `self.M()`: the expression in terms of the caller's self"""
@@ -1113,6 +1161,17 @@ def _store_value(a: A, f, ev):
 
 def _membership_atom(a: A, f, atom, task_param: str, owner_rel=None):
     """`task in <this facade's list>`: self._list, self, or the owner's relation"""
+    if isinstance(atom, ast.Call) and isinstance(atom.func, ast.Attribute) and a.is_self(f, atom.func.value) and \
+            len(atom.args) == 1 and not atom.keywords and isinstance(atom.args[0], ast.Name) and atom.args[0].id == task_param:
+        # `self._holds(task)`: a helper of the list classes that validates its argument and answers `task in self._list`
+        m = a.prog.find_method(a.cur_cls.get(f.qual) or f.cls, unmangle(atom.func.attr)) if f.cls else None
+        if m is not None and len(m.params) == 2 and isinstance(m.node, ast.FunctionDef):
+            body = A.hook_body(m)
+            if body and isinstance(body[-1], ast.Return) and body[-1].value is not None and \
+                    all(isinstance(st, ast.Expr) and isinstance(st.value, ast.Call) and isinstance(st.value.func, ast.Name) and
+                        st.value.func.id.startswith('_check') for st in body[:-1]):
+                return _membership_atom(a, m, body[-1].value, m.params[1])
+        return None
     if isinstance(atom, ast.Compare) and len(atom.ops) == 1 and isinstance(atom.ops[0], (ast.In, ast.NotIn)):
         l, r = atom.left, atom.comparators[0]
         if isinstance(l, ast.Name) and l.id == task_param:
@@ -1907,7 +1966,7 @@ def delegation_wbs(a: A, ctx):
             m = dict(zip(ps, facts.bound_args(c, worker)))
             return m.get(tp), m.get(cur)
         direct = [e for e in a.events(f) if e.kind == 'call' and isinstance(e.node, ast.Call) and e.name == 'remove'
-                  and any(t.qual == 'task._ChildrenList.remove' for t in e.ci.targets)]
+                  and any(t.qual in ('task._ChildrenList.remove', a.fn('task._ChildrenList.remove').qual) for t in e.ci.targets)]
         rec = [e for e in a.events(f) if e.kind == 'call' and f in e.ci.targets]
         ok = True
         walk = (_worklist_walk(a, f, cur) or _flat_walk(a, f, cur, direct)) if not rec else None
@@ -2590,7 +2649,17 @@ def children_setter(a: A, ctx):
                      isinstance(at.ops[0], ast.NotIn if pol else ast.In) and isinstance(at.left, ast.Name) and at.left.id == v
                      and is_arg(a, f, at.comparators[0], e.cn)]
             if not kept and not notin:
-                o.refute(f, c, c, "every old child is detached, also the ones that stay in the new list")
+                dt = a.fn('task.Task._detach') if a.prog.has_func('task.Task._detach') else None
+                guarded_inside = dt is not None and any(
+                    isinstance(n, ast.Attribute) and n.attr in ('_Task__parent', 'parent') and a.is_self(dt, n.value)
+                    for t0, _ in [(x, 0) for n0 in cfg_of(dt).nodes if n0.kind == 'branch' and not isinstance(n0.test, (ast.For, ast.AsyncFor))
+                                  for x in [n0.test]] for n in ast.walk(t0))
+                if guarded_inside:
+                    # the `still has a parent -> stays` test moved into _detach itself: what it must do is C11's subject
+                    o.undecided(f, c, c, "every old child is handed to _detach(); whether the ones that stay are spared is decided "
+                                         "inside _detach (a test on the task's parent), which this clause does not follow")
+                else:
+                    o.refute(f, c, c, "every old child is detached, also the ones that stay in the new list")
                 okd = False
             elif len(inner) > len(kept) + len(notin):
                 o.undecided(f, c, c, "detaching depends on a condition the rule does not know")
@@ -2872,6 +2941,8 @@ def _mirror_conditions(a: A, f, inner, v, MIR, want_present, e):
         if isinstance(at, ast.Compare) and len(at.ops) == 1 and isinstance(at.ops[0], (ast.In, ast.NotIn)):
             present = isinstance(at.ops[0], ast.In) == pol
             l, r = at.left, at.comparators[0]
+            if isinstance(r, ast.Name):
+                r = deref(f, r, e.cn)        # `mirror = v.__successors; if self in mirror: mirror.remove(self)`
             if a.is_self(f, l) and isinstance(r, ast.Attribute) and r.attr == MIR and isinstance(r.value, ast.Name) and r.value.id == v:
                 if present != want_present:
                     return ('refute', at, f"mirror update guarded by `{src(at)}` with the wrong polarity: it never does anything")
@@ -3566,7 +3637,7 @@ def _reaches_exit_avoiding(cfg, start, avoid_ids):
     while todo:
         n = todo.pop()
         for x in n.succ:
-            if x.id in seen or x.id in avoid_ids:
+            if x.id in seen or x.id in avoid_ids or _dead_branch(x):
                 continue
             if x is cfg.exit:
                 return True
@@ -3917,7 +3988,14 @@ def sort_stable(a: A, ctx):
                         kk = hk[1]
                 if kk == 'other':
                     g = _attr_getter(kf_r.body, kf_r.args.args[0].arg) if isinstance(kf_r, ast.Lambda) and len(kf_r.args.args) == 1 else None
-                    if g is not None:
+                    per_key = g is not None and isinstance(g, ast.Name) and any(
+                        isinstance(fo0.target, ast.Name) and fo0.target.id == g.id and KEY in names_in(fo0.iter)
+                        for fo0 in cfg.enclosing_fors(e.cn))
+                    if per_key:
+                        o.refute(f, w.node, kf, f"{what}: one sort pass per entry of `{KEY}` (key `{src(g)}`) instead of ONE stable sort by the "
+                                                f"joined key: the passes compare the raw attribute values, not the joined str() forms, and "
+                                                f"each pass rewrites the list")
+                    elif g is not None:
                         o.refute(f, w.node, kf, f"{what}: sorts by `{src(g)}` instead of the attribute named by `{KEY}`")
                     else:
                         o.undecided(f, w.node, kf, f"{what}: key function is not an attribute getter of `{KEY}`")
